@@ -111,10 +111,10 @@ fn run_task(t: usize, body: &[Value]) -> Option<usize> {
                 tlog(t, json!({"e": "panic", "k": kind, "m": ins["m"].clone()}));
                 match kind {
                     "static" => {
-                        let m: &'static str = Box::leak(format!("m{}", as_u64(&ins["m"])).into_boxed_str());
+                        let m: &'static str = Box::leak(crate::areas::co::panic_text(as_u64(&ins["m"])).into_boxed_str());
                         std::panic::panic_any(m)
                     }
-                    "owned" => std::panic::panic_any(format!("m{}", as_u64(&ins["m"]))),
+                    "owned" => std::panic::panic_any(crate::areas::co::panic_text(as_u64(&ins["m"]))),
                     _ => std::panic::panic_any(42u32),
                 }
             }
